@@ -31,6 +31,39 @@ Proof.
   unfold set_signed_b. rewrite Es, Hn. apply tbs_eqb_refl.
 Qed.
 
+Lemma table_upstream_in' : forall tbl q,
+  table_upstream tbl q = UErr \/ In (q, table_upstream tbl q) tbl.
+Proof.
+  induction tbl as [|[q0 r0] tbl IH]; intros q; cbn [table_upstream]; [now left|].
+  destruct (query_eqb q q0) eqn:E.
+  - right. apply key_eqb_eq in E. subst. now left.
+  - destruct (IH q) as [H|H]; [now left|right; now right].
+Qed.
+
+Lemma no_material_b : forall tbl,
+  forallb (fun sec => forallb (fun x => negb (denial_material x)) sec) (all_sections tbl) = true ->
+  forall sec x, Delivered (table_upstream tbl) sec -> In x sec -> denial_material x = false.
+Proof.
+  intros tbl H sec x Hd Hx. apply table_delivered in Hd.
+  rewrite forallb_forall in H. specialize (H sec Hd). rewrite forallb_forall in H. specialize (H x Hx).
+  now apply negb_true_iff in H.
+Qed.
+
+Definition ds_answer_ok (e : query * ureply) : bool :=
+  negb (snd (fst e) =? T_DS) ||
+  match msg_of (snd e) with
+  | Some m => match ans m with [] => true | _ => existsb is_ds (ans m) end
+  | None => true
+  end.
+
+Lemma ds_answers_b : forall tbl, forallb ds_answer_ok tbl = true ->
+  forall q m, msg_of (table_upstream tbl q) = Some m -> snd q = T_DS -> ans m = [] \/ existsb is_ds (ans m) = true.
+Proof.
+  intros tbl H q m Hm Hq. destruct (table_upstream_in' tbl q) as [E|Hin]; [rewrite E in Hm; discriminate|].
+  rewrite forallb_forall in H. specialize (H _ Hin). unfold ds_answer_ok in H. cbn [fst snd] in H.
+  rewrite Hq, N.eqb_refl, Hm in H. cbn [negb orb] in H. destruct (ans m); [now left|now right].
+Qed.
+
 Section Guarded.
   Variable U : query -> ureply.
   Variable anchors : list N.
@@ -100,7 +133,7 @@ Proof. eexists _, _, _. split; [vm_compute; reflexivity|]. cbn. auto. Qed.
 Lemma w2_no_denial_material : ~ DenialMaterial (table_upstream w2_tbl).
 Proof. apply no_denial_material. vm_compute. reflexivity. Qed.
 
-(* W3 (harness: seed 1 index 2535, hierarchy 0): the answer to (www.leaf.tld, A) is replaced by a
+(* W3 (harness attack script atk-foreign-signer, hierarchy 0, e.g. replay 1:509): the answer to (www.leaf.tld, A) is replaced by a
    forged A record with an RRSIG really made by the key of the sibling zone evil.tld, signer
    name evil.tld.  Labels: tld = 1, leaf = 2, evil = 4, www = 6. *)
 Definition w3_tbl : list (query * ureply) :=
